@@ -57,7 +57,7 @@ def run_shard(spec, rec):
     rng = random.Random(f"c14-{spec['seed']}-{spec['shard']}")
     for _ in range(spec["files"]):
         run_case({"kind": "file", "fseed": rng.randrange(10 ** 9)}, rec)
-    for _ in range(20 if spec["tier"] == "quick" else 100):
+    for _ in range(10 if spec["tier"] == "quick" else 40):
         case = rc.gen_eleven(rng)
         case["kind"] = "reapply"
         rec.count("contests_with_eleven_candidates_and_two_digit_rank_numbers")
